@@ -23,6 +23,7 @@ func init() {
 		Rule{ID: "R07c", Doc: "same key function and inputs on lookup and store", Floor: 4, Run: r07c},
 		Rule{ID: "R07d", Doc: "memory backend: key re-check, copy, entry lock discipline", Floor: 8, Run: r07d},
 		Rule{ID: "R07e", Doc: "netlist.List built only by Build; Lookup index guarded", Floor: 3, Run: r07e},
+		Rule{ID: "R20b", Doc: "the question used for the key is not recycled under the refresh goroutine (shared with C20)", Floor: 20, Run: r20b},
 	)
 }
 
